@@ -643,6 +643,59 @@ Section CrashProofs.
       cbn. rewrite (H a b E1 E2). reflexivity.
   Qed.
 
+  (** * Start-ups after the first one: restarting is idempotent *)
+
+  (** a disk whose state store is sane for [hs] and whose chain meta is at height |hs| opens,
+      with no rollback at all *)
+  Lemma recover_state_sane hs d m : state_sane hs (dk_state d) m ->
+    cm_height (load_meta (dk_ix d)) = tlen hs ->
+    exists m0, recover d = RecOk (mkL (mkDisk (dk_state d) (dk_ix d) (restart_bf true (load_meta (dk_ix d)) (dk_bf d)))
+                                      m0 (load_meta (dk_ix d))) /\
+               state_sane hs (dk_state d) m0.
+  Proof.
+    intros Hs Hh. destruct (state_open_sane _ _ _ Hs) as [m0 [Ho [H0 Hm]]].
+    unfold recover, recover_with. rewrite Ho, Hh, (rollback_same _ _ _ H0 Hm). exists m0. auto.
+  Qed.
+
+  Lemma restart_bf_sane sp : restart_bf true (spec_meta sp) (bf_of sp) = bf_of sp.
+  Proof. apply (reopen_bf_of sp). Qed.
+
+  (** a clean restart of a sane ledger: same disk, sane again; the view ledger opens too *)
+  Theorem restart_sane hs l : sane hs l ->
+    exists l2, recover (l_disk l) = RecOk l2 /\ sane hs l2 /\ l_disk l2 = l_disk l /\
+               state_open (dk_state (l_disk l2)) <> None.
+  Proof.
+    intros [Hc Hst]. pose proof Hc as [B M L I]. cbn [chain_view cl_bf cl_ix cl_mem] in *.
+    assert (Hh : cm_height (load_meta (dk_ix (l_disk l))) = tlen hs) by (rewrite L, spec_meta_height; apply entries_of_len).
+    destruct (recover_state_sane hs (l_disk l) _ Hst Hh) as [m0 [Hr H0]].
+    rewrite L, B, restart_bf_sane in Hr. eexists. split; [exact Hr|]. split; [|split].
+    - split; [|exact H0]. constructor; cbn [chain_view l_disk l_cmem dk_bf dk_ix cl_bf cl_ix cl_mem]; auto.
+    - cbn [l_disk]. destruct (l_disk l) as [sd ix bf]. cbn in *. rewrite B. reflexivity.
+    - cbn [l_disk dk_state]. destruct (state_open_sane _ _ _ H0) as [m1 [Ho _]]. rewrite Ho. discriminate.
+  Qed.
+
+  (** C11_recover_idempotent: after a good crash, the second start-up (and every later one)
+      succeeds on the disk the first one left, leaves it unchanged and gives an
+      indistinguishable ledger *)
+  Theorem recover_idempotent bs l b (S : uset) : sane bs l -> wf_blocks (bs ++ [b]) -> Good S = true ->
+    exists l1 l2, recover (crash hash_hdr root sroot S l b) = RecOk l1 /\
+                  recover (l_disk l1) = RecOk l2 /\ l_disk l2 = l_disk l1 /\
+                  recover (l_disk l2) = RecOk l2 /\
+                  (forall U, observe_ledger U l2 = observe_ledger U l1) /\
+                  state_open (dk_state (l_disk l1)) <> None.
+  Proof.
+    intros Hs Hwf Hg. destruct (recover_good bs l b S Hs Hwf Hg) as [l1 [Hr Hl]].
+    set (hs := if S UIndex then bs ++ [b] else bs).
+    assert (H1 : sane hs l1) by (unfold hs; destruct (S UIndex); exact Hl).
+    destruct (restart_sane hs l1 H1) as [l2 [Hr2 [H2 [Hd2 Hv2]]]].
+    destruct (restart_sane hs l2 H2) as [l3 [Hr3 [H3 [Hd3 _]]]].
+    exists l1, l2. split; [exact Hr|]. split; [exact Hr2|]. split; [exact Hd2|]. split; [|split].
+    - (* the third start-up reproduces the second exactly: same disk, same function *)
+      rewrite Hd2. exact Hr2.
+    - intro U. apply (sane_same_observations U hs); assumption.
+    - rewrite <- Hd2. exact Hv2.
+  Qed.
+
   (** * The judge's predicate on the model's own experiment is exactly [Good] *)
   Lemma lobs_eqb_refl x : lobs_eqb x x = true.
   Proof.
@@ -747,22 +800,67 @@ Section CrashProofs.
     assert (Hwf1 : wf_blocks (pre ++ [b])) by (apply (wf_blocks_app_l _ post); rewrite <- Hall; exact Hwf).
     assert (Hwfp : wf_blocks pre) by (apply (wf_blocks_app_l _ [b]); exact Hwf1).
     assert (Hlen : (length pre + 1 <= u_kh U)%nat) by (rewrite app_length in Hk; cbn in Hk; lia).
-    unfold experiment, experiment_with. rewrite En. fold recover.
-    destruct (Good S) eqn:Hg.
-    - destruct (proj1 (recover_characterisation pre b post ln S Hsn Hwf) Hg) as [l' [Hr [Hc [l2 [Hcont Hs2]]]]].
-      rewrite Hr, Hcont. eexists. split; [reflexivity|].
+    unfold experiment, experiment_with. rewrite En. unfold startup_twice_with, startup_with. fold recover.
+    assert (Hfin : forall l', (sane pre l' \/ sane (pre ++ [b]) l') ->
+              exists o, match continue_from hash_hdr root sroot l' (pre ++ b :: post) with
+                        | None => Some (mkOut 0 (Some (observe_ledger U l')) 9 None)
+                        | Some l2 => Some (mkOut 0 (Some (observe_ledger U l')) 0 (Some (observe_ledger U l2)))
+                        end = Some o /\
+                        outcome_ok_b hash_hdr root (reference hash_hdr root sroot U (pre ++ b :: post) (length pre))
+                          (reference hash_hdr root sroot U (pre ++ b :: post) (Datatypes.S (length pre)))
+                          (reference hash_hdr root sroot U (pre ++ b :: post) (length (pre ++ b :: post))) o = true).
+    { intros l' Hc'.
+      assert (Hcont : exists l2, continue_from hash_hdr root sroot l' (pre ++ b :: post) = Some l2 /\ sane (pre ++ b :: post) l2).
+      { destruct Hc' as [Hc'|Hc'].
+        - apply continue_sane; assumption.
+        - rewrite Hall. apply continue_sane; [exact Hc'|rewrite <- Hall; exact Hwf]. }
+      destruct Hcont as [l2 [Hcont Hs2]]. rewrite Hcont. eexists. split; [reflexivity|].
       unfold outcome_ok_b. cbn [oc_rec oc_obs1 oc_cont oc_obs2]. rewrite Rn, Rn1, RN. cbn [N.eqb andb].
       rewrite (sane_same_observations U _ l2 lN Hs2 HsN). cbn [option_lobs_eqb]. rewrite lobs_eqb_refl, andb_true_r.
-      destruct Hc as [Hc|Hc].
-      + rewrite (sane_consistent_b U pre l' Hc Hwfp) by lia.
-        rewrite (sane_same_observations U _ l' ln Hc Hsn), lobs_eqb_refl. reflexivity.
-      + rewrite (sane_consistent_b U (pre ++ [b]) l' Hc Hwf1) by (rewrite app_length; cbn; lia).
-        rewrite (sane_same_observations U _ l' ln1 Hc Hsn1), lobs_eqb_refl, orb_true_r. reflexivity.
-    - destruct (recover_bad pre ln b S Hsn Hwf1 Hg) as [[Hr _]|[l' [Hr [_ [_ [_ [_ [_ [_ [Hh [_ Hgb]]]]]]]]]]]; rewrite Hr.
-      + eexists. split; [reflexivity|]. reflexivity.
-      + assert (Hcb : consistent_b hash_hdr root (observe_ledger U l') = false).
-        { apply consistent_b_head_unreadable; [|exact Hgb]. rewrite Hh. unfold tlen. lia. }
-        destruct (continue_from hash_hdr root sroot l' (pre ++ b :: post)); eexists; (split; [reflexivity|]);
-          unfold outcome_ok_b; cbn [oc_rec oc_obs1 oc_cont oc_obs2]; rewrite Hcb; reflexivity.
+      destruct Hc' as [Hc'|Hc'].
+      - rewrite (sane_consistent_b U pre l' Hc' Hwfp) by lia.
+        rewrite (sane_same_observations U _ l' ln Hc' Hsn), lobs_eqb_refl. reflexivity.
+      - rewrite (sane_consistent_b U (pre ++ [b]) l' Hc' Hwf1) by (rewrite app_length; cbn; lia).
+        rewrite (sane_same_observations U _ l' ln1 Hc' Hsn1), lobs_eqb_refl, orb_true_r. reflexivity. }
+    destruct (Good_cases S) as [[Hg [Hi [Hc Hst]]]|[[Hg Hi]|[[Hg [Hi Hst]]|[Hg [Hi [Hst Hc]]]]]]; rewrite Hg.
+    1, 2:
+      destruct (recover_good pre ln b S Hsn Hwf1 Hg) as [l1 [Hr Hl]]; rewrite Hr;
+      set (hs := if S UIndex then pre ++ [b] else pre);
+      assert (H1 : sane hs l1) by (unfold hs; destruct (S UIndex); exact Hl);
+      destruct (restart_sane hs l1 H1) as [l' [Hr2 [H2 [Hd2 Hv2]]]];
+      assert (Hv1 : state_open (dk_state (l_disk l1)) <> None) by (rewrite <- Hd2; exact Hv2);
+      destruct (state_open (dk_state (l_disk l1))) as [mv|] eqn:Ev1; [|congruence];
+      rewrite Hr2; destruct (state_open (dk_state (l_disk l'))) as [mv2|] eqn:Ev2; [|congruence];
+      apply Hfin; unfold hs in H2; rewrite Hi in H2; auto.
+    - (* class A *)
+      rewrite (recover_index_without_state pre ln b S Hsn Hst Hi). eexists. split; reflexivity.
+    - (* class C: both start-ups succeed, the head block stays unreadable *)
+      destruct (recover_new pre ln b S Hsn Hst Hi) as [l1 [Hr [Hv Hss]]]. rewrite Hr.
+      destruct (state_open_sane _ _ _ Hss) as [mv [Ev1 _]]. rewrite Ev1.
+      assert (Hix : dk_ix (l_disk l1) = dk_ix (crash hash_hdr root sroot S ln b))
+        by (apply (f_equal cl_ix) in Hv; exact Hv).
+      assert (Hcm : l_cmem l1 = load_meta (dk_ix (crash hash_hdr root sroot S ln b)))
+        by (apply (f_equal cl_mem) in Hv; exact Hv).
+      assert (Hbf : dk_bf (l_disk l1) = bf_of (entries_of pre)).
+      { apply (f_equal cl_bf) in Hv. cbn [chain_view restart_view cl_bf] in Hv.
+        rewrite Hv, (crash_bf pre ln b S Hsn), Hc, andb_false_r. reflexivity. }
+      assert (Hh1 : cm_height (load_meta (dk_ix (l_disk l1))) = tlen (pre ++ [b]))
+        by (rewrite Hix, (crash_height pre ln b S Hsn), Hi, tlen_app; reflexivity).
+      destruct (recover_state_sane (pre ++ [b]) (l_disk l1) _ Hss Hh1) as [m0 [Hr2 H0]]. rewrite Hr2.
+      cbn [l_disk dk_state]. destruct (state_open_sane _ _ _ H0) as [mv2 [Ev2 _]]. rewrite Ev2.
+      set (l' := mkL _ m0 _).
+      assert (Hh : height l' = tlen pre + 1) by (unfold height, l'; cbn [l_cmem]; rewrite Hh1, tlen_app; reflexivity).
+      assert (Hgb : get_block (chain_view l') (height l') true = RFail).
+      { rewrite Hh. unfold get_block.
+        assert (Hb2 : cl_bf (chain_view l') = bf_of (entries_of pre)).
+        { unfold chain_view, l'. cbn [l_disk dk_bf cl_bf]. rewrite Hbf. unfold restart_bf.
+          rewrite bf_repair_of. unfold bf_blocks. rewrite bf_min_of, entries_of_len, Hh1, tlen_app.
+          destruct (tlen pre =? tlen pre + 1 + 1) eqn:E; [lia|reflexivity]. }
+        rewrite Hb2. unfold bf_of. cbn [bf_bodies].
+        rewrite tget_map, tget_none by (rewrite entries_of_len; lia). reflexivity. }
+      assert (Hcb : consistent_b hash_hdr root (observe_ledger U l') = false).
+      { apply consistent_b_head_unreadable; [|exact Hgb]. rewrite Hh. unfold tlen. lia. }
+      destruct (continue_from hash_hdr root sroot l' (pre ++ b :: post)); eexists; (split; [reflexivity|]);
+        unfold outcome_ok_b; cbn [oc_rec oc_obs1 oc_cont oc_obs2]; rewrite Hcb; reflexivity.
   Qed.
 End CrashProofs.
